@@ -2414,8 +2414,35 @@ def c02_name_tests():
             raise Exception(f"name tests of the back end: the test on `{must}` was not found (scanner out of date?)")
     return {"stems": stems, "sites": sites}
 
+# the keywords of the Go specification, written out from the specification: NOT read from go/mangle.rs, whose
+# table (`is_go_keyword`) is one of the things the dictionary tests
+C02_GO_SPEC_KEYWORDS = ["break", "case", "chan", "const", "continue", "default", "defer", "else", "fallthrough", "for", "func", "go",
+                        "goto", "if", "import", "interface", "map", "package", "range", "return", "select", "struct", "switch", "type", "var"]
+
+def c02_go_words():
+    """the Go-word dictionary of the name-test catalogue: every spelling that means something to GO and that a
+    goml user might give to an item -> its class.  go-keyword: the specification's 25 (+ whatever else
+    mangle.rs::is_go_keyword lists); go-predeclared: the universe block; runtime-name: what the emitted file
+    itself declares or relies on — runtime helper functions, imported package names, fixed parameter / field
+    names of generated code (re-read from go/runtime.rs and go/compile.rs on every run), gensym prefixes."""
+    words = {}
+    for w in C02_GO_SPEC_KEYWORDS + list(go_ident_tables()["keywords"]):
+        words.setdefault(w, "go-keyword")
+    for w in GO_PREDECLARED:
+        words.setdefault(w, "go-predeclared")
+    rt = runtime_tables()
+    comp = _src("crates/compiler/src/go/compile.rs")
+    generated_fields = sorted(set(re.findall(r'name: "([a-z_][a-z0-9_]*)"\.to_string\(\),\s*ty:', comp)))   # goast::Field { name: "vtable".to_string(), ty: … }
+    for w in rt["helpers"] + rt["imports"] + rt["fixed_params"] + rt["gensym"] + generated_fields + [rt["entry_go"], rt["closure_apply"]]:
+        if re.fullmatch(r"[A-Za-z][A-Za-z0-9_]*", w):
+            words.setdefault(w, "runtime-name")
+    if len([w for w, c in words.items() if c == "go-keyword"]) < 25 or "vtable" not in words or "string_println" not in words:
+        raise Exception("c02_go_words: a word class came out empty (runtime_tables / compile.rs anchors moved?)")
+    return words
+
 def c02_check_name_tests():
     c02_name_tests()
+    c02_go_words()
 
 EXTRACTORS += [c02_check_name_tests]
 
